@@ -1210,7 +1210,7 @@ func c06EditRun(c *mc.Ctx) {
 
 	// ---- choice points (fixed order; every one is a deviation) ----
 	dSwap := c.Dev(2, "swap responses")
-	dStatus := c.Dev(3, "status")
+	dStatus := c.Dev(9, "status")
 	var names []string
 	for n := range e.Response.Header {
 		names = append(names, n)
@@ -1252,6 +1252,13 @@ func c06EditRun(c *mc.Ctx) {
 	case 2:
 		e.Response.Status = 201
 		note("status=201")
+	case 3, 4, 5, 6, 7, 8:
+		// the zero value (a cleared field), values that agree with the signed one in their low 8 / 16 bits or their
+		// first three digits, and a negative one: a serializer that defaults, masks or truncates would map them
+		// onto the signed status (a write/read after the edit may refuse them, which is a detection)
+		o := e.Response.Status
+		e.Response.Status = []int{0, o + 256, o + 65536, -o, o * 10, o + 1000}[dStatus-3]
+		note("status=%d", e.Response.Status)
 	}
 	for i, n := range names {
 		vals, present := e.Response.Header[n]
